@@ -268,6 +268,17 @@ def gen_case(rng):
                         if rng.chance(1, 4):
                             r = "!" + r
                         rules[src][d].append(r)
+    # a line that is not a valid glob: reported, skipped, and nothing else
+    # (the other lines, the other files) may change because of it
+    for src in used:
+        if rng.chance(1, 8):
+            v = rules.get(src)
+            if isinstance(v, dict):
+                for d in v:
+                    v[d].insert(rng.below(len(v[d]) + 1), rng.pick(["[oops", "x[", "[z-a]"]))
+                    break
+            elif isinstance(v, list):
+                v.insert(rng.below(len(v) + 1), rng.pick(["[oops", "x["]))
     # plant conflicts on a shared target
     if len(used) >= 2 and rng.chance(2, 3):
         tgt = rng.pick(names) if rng.chance(2, 3) else "*" + rng.pick(EXTS)
